@@ -29,7 +29,9 @@ class BooleanOp(PureExec):
         a = (
             self.ops[0].il_read()
             if (
-                isinstance(self.ops[0], BooleanOp) or isinstance(self.ops[0], CompareOp)
+                isinstance(self.ops[0], BooleanOp)
+                or isinstance(self.ops[0], CompareOp)
+                or self.ops[0].value_type.group & VTGroup.BOOL
             )
             else f"NON_ZERO({self.ops[0].il_read()})"
         )
@@ -39,7 +41,9 @@ class BooleanOp(PureExec):
         b = (
             self.ops[1].il_read()
             if (
-                isinstance(self.ops[1], BooleanOp) or isinstance(self.ops[1], CompareOp)
+                isinstance(self.ops[1], BooleanOp)
+                or isinstance(self.ops[1], CompareOp)
+                or self.ops[1].value_type.group & VTGroup.BOOL
             )
             else f"NON_ZERO({self.ops[1].il_read()})"
         )
